@@ -1332,6 +1332,8 @@ func (is *indexSearch) updateTSIDsByOrSuffixes(tf *tagFilter) (*uint64set.Set, e
 			return tsids, err
 		}
 	}
+	// the exact-value lookups must hide deleted tsids just like the scanning path does
+	tsids.Subtract(is.deleted)
 	return tsids, nil
 }
 
@@ -1602,7 +1604,8 @@ func (is *indexSearch) updateTSIDsForPrefix(prefix []byte, tsids *uint64set.Set,
 	for ts.NextItem() {
 		item := ts.Item
 		if !bytes.HasPrefix(item, prefix) {
-			return nil
+			// leave the loop (not the function): the deleted tsids still have to be subtracted below
+			break
 		}
 		tail := item[len(prefix):]
 		for i := 0; i < tagSeps; i++ {
